@@ -50,6 +50,11 @@ def run(res, tier, lean, prop="C01", proof_breaks=(), build_log=""):
             res.bump("recursive" if recursive else "non_recursive")
             res.bump("operations", len(result["applied"]))
     outs = lean.run(lines)
+    res.notes["histories_all_ops_valid_in_model"] = sum(1 for o in outs if "valid=1" in o)
+    res.notes["histories_replayed"] = len(outs)
+    invalid = [(l, o) for l, o in zip(lines, outs) if "valid=0" in o]
+    if invalid:
+        raise RuntimeError("the model's syscall guards reject an operation the real file system accepted: " + invalid[0][0])
     bad, judged = [], []
     for line, o, i, (recursive, full, as_bytes, result) in zip(lines, outs, impl, meta):
         res.count()
